@@ -147,7 +147,7 @@ CHECKS = {
         mc=[dict(module="MC_Eip191", workers=16)],
         gen=[dict(module="Gen_C10", slices=dict(quick=4, thorough=8))],
         rule="MC_Eip191: DecimalAscii(n) canonical and inverted by Atoi for every n in 0..20000 (quick) / 0..1000001 "
-             "(thorough); Gen_C10: every message length 0..300 (quick) / 0..1100 (thorough) with position dependent "
+             "(thorough); Gen_C10: every message length 0..1100 with position dependent "
              "content, all 256 one-byte messages, non-UTF-8 and whitespace-only content, lengths 10^k-1, 10^k, 10^k+1 "
              "for k = 4, 5 (quick) and 6 (thorough)",
         assumptions=["Keccak-256 is a trusted primitive"],
